@@ -385,3 +385,47 @@ Proof.
       destruct HL as [<- | [<- | [<- | []]]]; vm_compute; reflexivity. }
   vm_compute. repeat split; reflexivity.
 Qed.
+
+From Texel Require Import Snap.MatchSupport Snap.ProofsGenMatch.
+From Texel.Gen Require Import MatchGen.
+
+(** ** tie G2 (loops): matchInnersToPolygons REGENERATED from snap.go on this run (gen/MatchGen.v, translator/match.go)
+    is the model's, for EVERY list of polygons, every list of inner rings and every outcome (value, Err
+    IndexOutOfRange for a polygon without rings / an empty outer ring).  Translated from the AST: the early return,
+    both [var] declarations, the labelled loop [matchInners] over the inner rings, the loop over a ring's vertices,
+    [for polyI := range polygons], the per-polygon counting [containsPerPolyI.Set(polyI, containsPerPolyI.Value(polyI)+1)],
+    [matchCount == 1] with [continue matchInners] out of the vertex loop, [containsPerPolyI.Len() == 0] with
+    [continue], the lazily computed [polyISortedByOuterAreaDesc] ([== nil]: an [option]), both in-place updates
+    [polygons[k] = append(polygons[k], innerRing)] and the final loop over the inners turned outers.
+    [polygons[k] = ...] is [idx] + [setidx], i.e. Err IndexOutOfRange where Go panics, while the model's
+    [append_inner] ignores an index out of range: the proof shows k is always a valid index (a key of the counts, or
+    0 with at least one polygon), so the two agree and that panic cannot happen.  [hasInners] is only logged.
+    NOT translated, kept as the MODEL's function after the translator checked the AST for the exact callee, import
+    path and declared signature (trusted; listed at the top of gen/MatchGen.v and Snap/ProofsGenMatch.v):
+    - [ringContains], [sortPolyIdxsByOuterAreaDesc] (float predicates, go-sortedmap; the latter's result is nil
+      exactly when empty: [nilable_of_keys]);
+    - [mapslicehelp.FindLastKeyWithMaxValue] = [maxWinners], [mapslicehelp.LastMatch] = [lastMatch],
+      [mapslicehelp.OrderedMapKeys] = [map fst], [mapslicehelp.ReverseClone] = [rev];
+    - go-ordered-map: [orderedmap.New[int, uint](orderedmap.WithCapacity[int, uint](n))] = [[]], [Set] = [om_set],
+      [Value] = [om_get], [Len] = [om_len] (Snap/MatchSupport.v; [Set(k, Value(k)+1)] is PROVED to be [om_incr]);
+    - [for i := range s] over [go_indices s]; [log.Printf] = nothing; [int]/[uint] exact Z; slices as values. *)
+Theorem C06_source_tie_match_inners : forall polys inners hasInners,
+  gen_matchInnersToPolygons polys inners hasInners = matchInnersToPolygons polys inners.
+Proof. exact gen_matchInnersToPolygons_spec. Qed.
+Print Assumptions C06_source_tie_match_inners.
+
+(** the regenerated code runs: two nested shells; one hole inside both (no single winner: it goes to the smaller
+    shell through the lazily sorted indices), one hole inside the big shell only (single winner at its first vertex:
+    [continue matchInners]), one "hole" outside both (turned into an outer, reversed); a polygon without rings makes
+    the scan fail as the Go code panics; without polygons every inner ring is turned *)
+Example C06_source_tie_match_inners_example :
+  let P0 := [(0,0); (100,0); (100,100); (0,100)] in
+  let P1 := [(10,10); (50,10); (50,50); (10,50)] in
+  let A := [(20,20); (20,30); (30,30); (30,20)] in
+  let B := [(60,60); (60,70); (70,70); (70,60)] in
+  let C := [(200,200); (200,210); (210,210)] in
+  gen_matchInnersToPolygons [[P0]; [P1]] [A; B; C] true = Ok [[P0; B]; [P1; A]; [rev C]] /\
+  gen_matchInnersToPolygons [[P0]; []] [A] true = Err IndexOutOfRange /\
+  gen_matchInnersToPolygons [] [A; B] false = Ok [[rev A]; [rev B]] /\
+  gen_matchInnersToPolygons [[P0]; [P1]] [] false = Ok [[P0]; [P1]].
+Proof. vm_compute. repeat split; reflexivity. Qed.
